@@ -186,6 +186,10 @@ func composeYAML(c cmpCfg, rng *rand.Rand, dir string) string {
 		if toFail {
 			b.WriteString("    timeout: 4s\n")
 		}
+		if (s+c.N)%2 == 0 {
+			// a task-level condition that holds (evaluated by the runner before anything of the task runs)
+			b.WriteString("    condition: \"exit 0\"\n")
+		}
 		if c.HB[s-1] != "none" {
 			fmt.Fprintf(&b, "    before: [\"%s\"]\n", hook(c.HB[s-1], fmt.Sprintf("s%d-tb", s)))
 		}
